@@ -14,6 +14,10 @@
                               LV = the lock file's entries are themselves a valid solution
                               (the hypothesis of relock_stable)
      fix{E=.. SD=.. K=.. M=..}  the same with the repaired matcher (matches_fix)
+   With an `R2:` section (manifest edited, lock file kept; `B:` = the Rust resolver's answer of the
+   second phase when it had to resolve again) each block continues with
+     UP=1|0 (is_lock_file_up_to_date) V2 (the second assignment is valid for the edited manifest)
+     A2 E2 SD2 K2 M2 LV2, and the line has exists2= for the edited manifest.
    Only parsing and printing happen here; every decision is made by extracted code. *)
 open C20_model
 
@@ -79,14 +83,22 @@ let parse_pkgver s =
     pver = parse_ver (String.sub head (j + 1) (String.length head - j - 1));
     pdeps = parse_deps deps }
 
-type case = { idx : index; root : manifest; locked : (n * ver) list option; ans : (n * ver list) list option }
+type case = { idx : index; root : manifest; root2 : manifest option; locked : (n * ver) list option;
+              ans : (n * ver list) list option; ans2 : (n * ver list) list option }
 
 let parse_case line =
-  let c = ref { idx = []; root = []; locked = None; ans = None } in
+  let c = ref { idx = []; root = []; root2 = None; locked = None; ans = None; ans2 = None } in
   List.iter (fun sec ->
     if sec <> "" then begin
+      let sec = if String.length sec >= 3 && String.sub sec 0 3 = "R2:" then "S:" ^ String.sub sec 3 (String.length sec - 3) else sec in
       let tag = String.sub sec 0 2 and body = String.sub sec 2 (String.length sec - 2) in
+      let parse_ip body = List.map (fun s ->
+            let j = String.index s ':' in
+            (parse_pkg (String.sub s 0 j),
+             List.map parse_ver (split '+' (String.sub s (j + 1) (String.length s - j - 1))))) (split ',' body) in
       match tag with
+      | "S:" -> c := { !c with root2 = Some (parse_deps body) }
+      | "B:" -> c := { !c with ans2 = Some (parse_ip body) }
       | "I:" -> c := { !c with idx = List.map parse_pkgver (split ';' body) }
       | "R:" -> c := { !c with root = parse_deps body }
       | "L:" ->
@@ -120,7 +132,8 @@ let show_res f = function Ok x -> f x | Panic -> "PANIC" | Err -> "ERR" | OutOfF
 
 let by_name l = List.sort (fun a b -> compare a.dname b.dname) l
 
-let downstream mt (c : case) (ip : (n * ver list) list) =
+let rec downstream ?(sfx = "") mt (c : case) (root : manifest) (ip : (n * ver list) list) =
+  let c = { c with root = root } in
   let r = { r_idx = c.idx; r_ip = ip } in
   let bind d = match precise mt r d with Ok (_, v) -> show_ver v | Panic -> "!" | _ -> "?" in
   let edge pre d = Printf.sprintf "%s/%s>%s:%s=%s" pre d.dname (show_pkg d.dpkg) (show_req d.dreq) (bind d) in
@@ -152,7 +165,22 @@ let downstream mt (c : case) (ip : (n * ver list) list) =
       let pk = List.sort_uniq compare (List.map (fun ((pp, n), q) -> show_ppkg pp ^ "/" ^ n ^ "=" ^ show_ppkg q) pk) in
       "ok{" ^ String.concat "," top ^ "|" ^ String.concat "," pk ^ "}")
       (package_map mt r c.root) in
-  Printf.sprintf "E=%s SD=%s K=%s M=%s LV=%s" (String.concat "," (e_root @ e_pk)) (String.concat ";" sd) k m lv
+  let first = Printf.sprintf "E%s=%s SD%s=%s K%s=%s M%s=%s LV%s=%s" sfx (String.concat "," (e_root @ e_pk)) sfx (String.concat ";" sd) sfx k sfx m sfx lv in
+  (* second phase: the manifest is edited, the lock file stays (ManifestFile::lock) *)
+  match sfx, c.root2, lk with
+  | "", Some root2, Ok l ->
+      let up = up_to_date mt l root2 in
+      let ip2 = if up then Some (copy_from_lock l) else c.ans2 in
+      (match ip2 with
+       | Some ip2 ->
+           let a2 = assignment_of_ip ip2 in
+           Printf.sprintf "%s UP=%d V2=%d A2=%s %s" first (if up then 1 else 0)
+             (if valid_solution c.idx root2 a2 then 1 else 0)
+             (String.concat "," (List.map (fun (id, vs) -> show_pkg id ^ ":" ^ String.concat "+" (List.map show_ver vs))
+                (List.sort (fun (a, _) (b, _) -> compare (show_pkg a) (show_pkg b)) ip2)))
+             (downstream ~sfx:"2" mt c root2 ip2)
+       | None -> Printf.sprintf "%s UP=%d" first (if up then 1 else 0))
+  | _ -> first
 
 let cap = 200000
 
@@ -169,6 +197,12 @@ let () =
            else match exists_solution c.idx c.root with
              | Some a -> Buffer.add_string buf ("exists=1 sol=" ^ show_assignment a)
              | None -> Buffer.add_string buf "exists=0");
+          (match c.root2 with
+           | Some root2 ->
+               let size2 = int_of_n (enum_size c.idx (cand_keys c.idx root2)) in
+               if size2 > cap || size2 < 0 then Buffer.add_string buf " exists2=skip"
+               else Buffer.add_string buf (match exists_solution c.idx root2 with Some _ -> " exists2=1" | None -> " exists2=0")
+           | None -> ());
           (match c.locked with
            | Some l ->
                let la = locked_of l in
@@ -194,8 +228,8 @@ let () =
                    | Some w when known_class ip d w -> Some (Printf.sprintf "%s/%s" pre d.dname)
                    | _ -> None) (r_edges @ p_edges) in
                Buffer.add_string buf (" known=" ^ String.concat "," known);
-               Buffer.add_string buf (" cur{" ^ downstream matches_cur c ip ^ "}");
-               Buffer.add_string buf (" fix{" ^ downstream matches_fix c ip ^ "}")
+               Buffer.add_string buf (" cur{" ^ downstream matches_cur c c.root ip ^ "}");
+               Buffer.add_string buf (" fix{" ^ downstream matches_fix c c.root ip ^ "}")
            | None -> ());
           Buffer.contents buf
         with e -> "MODEL-ERROR:" ^ Printexc.to_string e in
